@@ -1,6 +1,7 @@
 package chk
 
 import (
+	"go/constant"
 	"go/token"
 	"go/types"
 
@@ -39,7 +40,24 @@ func (g *cgraph) defineCallResult(c *ssa.Call, idx int, key string, val ssa.Valu
 		if idx == 0 {
 			g.le(zeroTerm, key, 1) // ≥ -1
 			g.defineLen(c.Call.Args[0], 1)
-			g.le(key, "len("+a.regKey(c.Call.Args[0])+")", -1) // < len (also when -1)
+			ls := "len(" + a.regKey(c.Call.Args[0]) + ")"
+			if !isSubstrIndex(sc.String()) {
+				g.le(key, ls, -1) // the byte/rune found is inside s (also when -1)
+			} else {
+				// r ≥ 0 ⇒ r + len(sep) ≤ len(s); an empty sep is found at len(s) (LastIndex) or 0
+				n := int64(0)
+				if cs, ok := c.Call.Args[1].(*ssa.Const); ok && cs.Value != nil && cs.Value.Kind() == constant.String {
+					n = int64(len(constant.StringVal(cs.Value)))
+				}
+				if n >= 1 {
+					g.le(key, ls, -1)
+					if g.proveLE(zeroTerm, 0, key, 0) {
+						g.le(key, ls, -n)
+					}
+				} else {
+					g.le(key, ls, 0)
+				}
+			}
 		}
 	case "strconv.Itoa":
 	case "(*regexp.Regexp).NumSubexp":
@@ -471,4 +489,40 @@ func nonNegByType(v ssa.Value) bool {
 		return nonNegByType(c.X)
 	}
 	return false
+}
+
+func isSubstrIndex(name string) bool {
+	switch name {
+	case "bytes.Index", "strings.Index", "bytes.LastIndex", "strings.LastIndex":
+		return true
+	}
+	return false
+}
+
+// substrIndexEnd: v = r + len(sep) where r is the result of Index/LastIndex(s, sep) and r ≥ 0 is
+// known: the match lies inside s, so v ≤ len(s).
+func (g *cgraph) substrIndexEnd(x *ssa.BinOp, key string) {
+	a := g.a
+	for _, pr := range [][2]ssa.Value{{x.X, x.Y}, {x.Y, x.X}} {
+		call, ok := pr[0].(*ssa.Call)
+		if !ok {
+			continue
+		}
+		sc := call.Call.StaticCallee()
+		if sc == nil || !isSubstrIndex(sc.String()) {
+			continue
+		}
+		lc, ok := pr[1].(*ssa.Call)
+		if !ok {
+			continue
+		}
+		if bi, ok := lc.Call.Value.(*ssa.Builtin); !ok || bi.Name() != "len" || a.regKey(lc.Call.Args[0]) != a.regKey(call.Call.Args[1]) {
+			continue
+		}
+		rk := a.regKey(call)
+		if g.proveLE(zeroTerm, 0, rk, 0) {
+			g.defineLen(call.Call.Args[0], 1)
+			g.le(key, "len("+a.regKey(call.Call.Args[0])+")", 0)
+		}
+	}
 }
